@@ -35,6 +35,8 @@ def plan(tier, seed):
     # node labels equal to variable names
     n_h = 50 if tier == 'quick' else 1500
     cases += [{'family': 'hostile_names', 'cseed': rnd.randrange(1 << 30)} for _ in range(n_h)]
+    # wide groups (11-16 nodes of one type): vectorization grouping with index-based edge forms
+    cases += [{'family': 'wide', 'cseed': rnd.randrange(1 << 30)} for _ in range(24 if tier == 'quick' else 500)]
     return cases
 
 
@@ -50,6 +52,8 @@ def make_case(case, ctx):
     want = case.get('want')
     for attempt in range(300):
         c4 = {'cseed': rnd.randrange(1 << 30)}
+        if case.get('family') == 'wide':
+            c4['family'] = 'wide'
         if case.get('family') == 'hostile_names':
             c4.update(pool='derived', hostile_labels=rnd.random() < 0.6)
             if rnd.random() < 0.6:
@@ -57,6 +61,8 @@ def make_case(case, ctx):
         spec, feats, risk = c04.make_spec(c4, ctx['excluded'])
         ref = RefModel(spec)
         vec = rnd.random() < 0.5 if not want else True
+        if case.get('family') == 'wide':
+            vec = rnd.random() < 0.85
         form = rnd.choice(['dict', 'dict', 'list']) if not want else 'list'
         # candidate variables: state variables
         svars = sorted({(k[1], k[2]) for k in ref.state_keys})
